@@ -74,6 +74,13 @@ def emit_user_op(d, world, acts, side, kinds=OP_KINDS, sizes=False):
             continue
         # locality bias: half of the time prefer an object touched recently (repeated work on one object is
         # where retries, stale temp files and half-synced states live)
+        # name-reuse bias: where re-using a name vacated in this window is inside the envelope (both sides
+        # id-style, same type), do it often -- freed-name reuse is a classic source of entry mix-ups
+        vac = world.win.vac[side]
+        if vac and kind in ("create", "mkdir", "rename_file", "rename_dir"):
+            reuse = [c for c in allowed if c[-1] in vac]
+            if reuse and d.chance(1, 2):
+                allowed = reuse
         recent = getattr(world, "recent", [])
         if recent and d.bool():
             near = [c for c in allowed if c[1] in recent or (len(c) > 2 and c[2] in recent)]
@@ -87,6 +94,64 @@ def emit_user_op(d, world, acts, side, kinds=OP_KINDS, sizes=False):
         world.recent = (getattr(world, "recent", []) + [c[-1] if c[0] == "rename" else c[1]])[-3:]
         return c
     return None
+
+
+def _try(world, acts, side, op):
+    """Apply one op of a macro if it is model-valid and hazard-free; returns True if emitted."""
+    from .model import ModelInvalid
+    try:
+        world.side[side].check(*op)
+    except ModelInvalid:
+        return False
+    h = world.hazard(side, *op)
+    if h is not None:
+        world.excluded[h] += 1
+        return False
+    acts.append(["u", side] + list(op))
+    world.apply(side, *op)
+    world.recent = (getattr(world, "recent", []) + [op[-1] if op[0] == "rename" else op[1]])[-3:]
+    return True
+
+
+MACROS = ("takeover", "safe_save", "swap", "move_and_edit", "ephemeral", "takeover_keep")
+
+
+def emit_macro(d, world, acts, side):
+    """Idioms real applications produce: several ops on related names with no engine step in between
+    (name takeover, save-via-temp-file, swap, move+edit, create+delete).  Every op still passes the hazard
+    predicates; a macro whose next op is rejected simply stops there.  Returns number of ops emitted."""
+    tree = world.side[side]
+    files = tree.files()
+    news = world.new_paths(side)
+    kind = d.choice(MACROS)
+    n0 = len(acts)
+    if kind in ("takeover", "takeover_keep") and len(files) >= 2 and news:
+        x = d.choice(files)
+        y = d.choice([f for f in files if f != x])
+        n = d.choice(news)
+        if _try(world, acts, side, ("rename", x, n)) and _try(world, acts, side, ("rename", y, x)) and kind == "takeover":
+            _try(world, acts, side, ("delete", n))
+    elif kind == "safe_save" and files and news:
+        x = d.choice(files)
+        t = d.choice(news)
+        if _try(world, acts, side, ("create", t, world.new_content())) and _try(world, acts, side, ("delete", x)):
+            _try(world, acts, side, ("rename", t, x))
+    elif kind == "swap" and len(files) >= 2 and news:
+        x = d.choice(files)
+        y = d.choice([f for f in files if f != x])
+        t = d.choice(news)
+        if _try(world, acts, side, ("rename", x, t)) and _try(world, acts, side, ("rename", y, x)):
+            _try(world, acts, side, ("rename", t, y))
+    elif kind == "move_and_edit" and files and news:
+        x = d.choice(files)
+        n = d.choice(news)
+        if _try(world, acts, side, ("rename", x, n)):
+            _try(world, acts, side, ("write", n, world.new_content()))
+    elif kind == "ephemeral" and news:
+        n = d.choice(news)
+        if _try(world, acts, side, ("create", n, world.new_content())):
+            _try(world, acts, side, ("delete", n))
+    return len(acts) - n0
 
 
 def emit_base(d, world, acts, base_side):
@@ -173,7 +238,7 @@ def emit_gadget(d, world, acts, shapes=GADGET_SHAPES):
 
 def gen_history(d, cfg, *, sides=(0, 1), n_ops=(3, 8), hazards=None, with_base=None, sizes=False,
                 w_op=5, w_step=4, w_settle=1, kinds=OP_KINDS, w_gadget=0, shapes=GADGET_SHAPES,
-                w_extra=0, extra=None, world_init=None):
+                w_extra=0, extra=None, world_init=None, w_macro=1):
     """Envelope history: hazard-free user ops on `sides` interleaved arbitrarily with engine steps."""
     world = World(path_style=(cfg["L"] == "path", cfg["R"] == "path"), hazards=hazards)
     if world_init:
@@ -189,8 +254,10 @@ def gen_history(d, cfg, *, sides=(0, 1), n_ops=(3, 8), hazards=None, with_base=N
     while done < n and guard < 10 * n + 20:
         guard += 1
         k = d.weighted([x for x in (("op", w_op), ("step", w_step), ("settle", w_settle), ("gadget", w_gadget),
-                                     ("extra", w_extra)) if x[1]])
-        if k == "extra":
+                                     ("extra", w_extra), ("macro", w_macro)) if x[1]])
+        if k == "macro":
+            done += emit_macro(d, world, acts, d.choice(sides))
+        elif k == "extra":
             extra(d, world, acts)
         elif k == "gadget":
             if emit_gadget(d, world, acts, shapes) is not None:
